@@ -582,7 +582,7 @@ class Rewriter:
                 continue
             if body.endswith(','):
                 body = body[:-1].strip()
-            spec_body = body
+            spec_body = to_spec(body)
             rep = '|%s| -> (b__: bool) ensures b__ == (%s) { %s }' % (params, spec_body, body)
             code = code[:bar1] + rep + code[cp:]
             pos = bar1 + len(rep)
@@ -690,6 +690,82 @@ class Rewriter:
         self.note('while-let->loop-match', n)
         return code
 
+    # ---- R9: let chains  `if A && let P = E && B { body }`  ->  nested ifs (only without else: otherwise unsupported)
+    def let_chains(self, code):
+        n = 0
+        guard = 0
+        while True:
+            guard += 1
+            if guard > 500:
+                raise ExtractError('let_chains loop')
+            m = mask(code)
+            hit = None
+            for mm in re.finditer(r'(?<![A-Za-z0-9_])if\s', m):
+                # condition text up to the body brace at depth 0
+                j = mm.end()
+                depth = 0
+                while j < len(m):
+                    ch = m[j]
+                    if ch in '([':
+                        depth += 1
+                    elif ch in ')]':
+                        depth -= 1
+                    elif ch == '{' and depth == 0:
+                        break
+                    j += 1
+                if j >= len(m):
+                    continue
+                cond_m = m[mm.end():j]
+                # split at top-level &&
+                parts, depth, last = [], 0, 0
+                k = 0
+                while k < len(cond_m) - 1:
+                    ch = cond_m[k]
+                    if ch in '([{':
+                        depth += 1
+                    elif ch in ')]}':
+                        depth -= 1
+                    elif ch == '&' and cond_m[k + 1] == '&' and depth == 0:
+                        parts.append((last, k)); last = k + 2; k += 1
+                    elif ch == '|' and cond_m[k + 1] == '|' and depth == 0:
+                        parts = None
+                        break
+                    k += 1
+                if parts is None:
+                    continue
+                parts.append((last, len(cond_m)))
+                texts = [code[mm.end() + a:mm.end() + b].strip() for a, b in parts]
+                has_let = [bool(re.match(r'let\s', t)) for t in texts]
+                if len(texts) < 2 or not any(has_let):
+                    continue
+                ob = j
+                cb = match_close(m, ob)
+                after = m[cb + 1:cb + 40].lstrip()
+                if after.startswith('else'):
+                    raise ExtractError('let chain with else branch is not supported by the extractor')
+                hit = (mm.start(), ob, cb, texts)
+                break
+            if not hit:
+                break
+            s0, ob, cb, texts = hit
+            body = code[ob:cb + 1]
+            # group consecutive non-let conditions
+            groups = []
+            for t in texts:
+                if re.match(r'let\s', t):
+                    groups.append(t)
+                elif groups and not re.match(r'let\s', groups[-1]):
+                    groups[-1] = groups[-1] + ' && ' + t
+                else:
+                    groups.append(t)
+            rep = body
+            for g in reversed(groups):
+                rep = 'if %s %s' % (g, rep if rep.startswith('{') else '{ %s }' % rep)
+            code = code[:s0] + rep + code[cb + 1:]
+            n += 1
+        self.note('let-chain->nested-if', n)
+        return code
+
     # ---- R8: local `const NAME: &[&str] = &[...]` -> `let NAME: Vec<&'static str> = vec![...]`
     def local_const_slices(self, code):
         n = 0
@@ -709,6 +785,7 @@ class Rewriter:
 
     def apply_all(self, code, opts):
         code = self.closure_underscore(code)
+        code = self.let_chains(code)
         code = self.local_const_slices(code)
         if not opts.get('no_while_let'):
             code = self.while_let(code)
@@ -721,6 +798,20 @@ class Rewriter:
             code = self.str_slices(code, skip_names=tuple(opts.get('noslice', ())))
         code = self.method_to_fn(code, [r for r in METHOD_RULES if r[3] not in opts.get('norule', ())])
         return code
+
+
+def to_spec(expr: str) -> str:
+    """exec boolean expression -> the same expression in spec mode (views instead of String/str equality,
+    spec predicates instead of the std search functions)"""
+    e = expr
+    # X == "lit" / X != "lit"   (X a place expression)
+    e = re.sub(r'([A-Za-z_][A-Za-z0-9_.]*(?:\(\))?)\s*(==|!=)\s*("(?:\\.|[^"\\])*")', r'\1@ \2 \3@', e)
+    e = re.sub(r'("(?:\\.|[^"\\])*")\s*(==|!=)\s*([A-Za-z_][A-Za-z0-9_.]*)', r'\1@ \2 \3@', e)
+    # X.contains(P) / X.vx_contains(P)
+    e = re.sub(r'([A-Za-z_][A-Za-z0-9_.]*)\s*\.\s*(?:vx_)?contains\s*\(\s*("(?:\\.|[^"\\])*")\s*\)', r'vx::contains_seq(\1@, \2@)', e)
+    e = re.sub(r'([A-Za-z_][A-Za-z0-9_.]*)\s*\.\s*(?:vx_)?starts_with\s*\(\s*("(?:\\.|[^"\\])*")\s*\)', r'vx::is_sub_at(\1@, \2@, 0)', e)
+    e = e.replace('.as_str()@', '@')
+    return e
 
 
 def ref_of(recv: str) -> str:
@@ -825,10 +916,11 @@ METHOD_RULES = [
     (r'\.\s*chars\s*\(\s*\)\s*\.\s*last\s*\(', 'vx_last_char', 'rename', 'str.chars().last->vx_last_char'),
     (r'\.\s*lines\s*\(\s*\)\s*\.\s*collect\s*(::\s*<[^()]*>)?\s*\(', 'vx_lines', 'rename', 'str.lines().collect->vx_lines'),
     (r'\.\s*replace\s*\(\s*\x27', 'vx_replace_char', 'rename_keep_tail', 'str.replace(char,_)->vx_replace_char'),
+    (r'\.\s*extend\s*\(', 'vx_extend', 'rename', 'Vec.extend(vec)->vx_extend'),
 ] + [
     (r'\.\s*%s\s*\(' % m, 'vx_%s' % m, 'rename', 'str.%s->vx_%s' % (m, m))
     for m in ('starts_with', 'ends_with', 'contains', 'find', 'rfind', 'strip_prefix', 'trim', 'trim_start', 'trim_end',
-              'trim_end_matches', 'trim_start_matches', 'to_uppercase', 'to_lowercase', 'split_at')
+              'trim_end_matches', 'trim_start_matches', 'to_uppercase', 'to_lowercase', 'split_at', 'join')
 ]
 
 
